@@ -138,7 +138,7 @@ func c02Routing(r *core.Report) {
 				continue // epoch chosen by something else than a slot (signature search, epoch loops)
 			}
 			nRouted++
-			base := fmt.Sprintf("%s#route@%s", f.Key, core.ExprStr(routeCall.Args[0]))
+			base := fmt.Sprintf("%s#route@%s", f.Key, core.KeyStr(f, routeCall.Args[0]))
 			slotExpr := routeCall.Args[0]
 			r.Check(plainPlace(info, slotExpr), rule, base+"-slot-unmodified", pos(r, routeCall), "the epoch is computed from the slot as given",
 				"the epoch is computed from "+core.ExprStr(slotExpr)+", an expression over the slot, not the slot itself")
@@ -146,7 +146,7 @@ func c02Routing(r *core.Report) {
 			// slot-addressed uses of the handler in this function and its literals
 			idxObjs := map[types.Object]bool{}
 			check := func(c2 *ast.CallExpr, arg ast.Expr, where *core.Func, what string) {
-				k := fmt.Sprintf("%s-%s(%s)", base, what, core.ExprStr(arg))
+				k := fmt.Sprintf("%s-%s(%s)", base, what, core.KeyStr(f, arg))
 				if core.ExprStr(stripConvs(info, arg)) == slotKey {
 					r.OK(rule, k, pos(r, c2), "the lookup is addressed with the slot that selected the epoch")
 					return
@@ -228,7 +228,7 @@ func c02Routing(r *core.Report) {
 					}
 					recv := core.ObjOf(info, sel.X)
 					if recv != nil && idxObjs[recv] && core.CalleeName(info, c2) == "blocktimeindex.(*Index).Get" && len(c2.Args) == 1 {
-						k := fmt.Sprintf("%s-%s(%s)", base, "blocktimeIndex.Get", core.ExprStr(c2.Args[0]))
+						k := fmt.Sprintf("%s-%s(%s)", base, "blocktimeIndex.Get", core.KeyStr(f, c2.Args[0]))
 						if !r.Has(rule, k) {
 							check(c2, c2.Args[0], w, "blocktimeIndex.Get")
 						}
@@ -430,7 +430,7 @@ func c02CompletionOrder(r *core.Report) {
 						continue
 					}
 					n++
-					kb := fmt.Sprintf("%s#concurrent-store:%s", f.Key, core.ExprStr(l))
+					kb := fmt.Sprintf("%s#concurrent-store:%s", f.Key, core.KeyStr(f, l))
 					seen[kb]++
 					k := kb
 					if seen[kb] > 1 {
@@ -709,6 +709,7 @@ func c02Blockhash(r *core.Report) {
 			"the value returned as blockhash is not (only) written from the last entry's hash")
 		// (b) previousBlockhash: parent fetched from the same handler under the same-epoch test, last entry of the parent
 		okParent, okLastOfParent := false, false
+		parentBlocks := map[types.Object]bool{} // what the parent's GetBlock was assigned to
 		g := p.Graph(f)
 		for _, n := range stmtNodes(g) {
 			for _, c := range nodeCalls(n) {
@@ -718,8 +719,11 @@ func c02Blockhash(r *core.Report) {
 				arg := core.ExprStr(stripConvs(info, c.Args[1]))
 				for _, fc := range g.FactsAt(n) {
 					if be, ok := core.Unparen(fc.Expr).(*ast.BinaryExpr); ok && fc.Tag == nil && fc.Truth && be.Op == token.EQL {
-						if rc, ok := core.Unparen(be.X).(*ast.CallExpr); ok && core.CalleeName(info, rc) == "slottools.CalcEpochForSlot" && core.ExprStr(stripConvs(info, rc.Args[0])) == arg && strings.Contains(strings.ToLower(arg), "parent") {
+						if rc, ok := core.Unparen(be.X).(*ast.CallExpr); ok && core.CalleeName(info, rc) == "slottools.CalcEpochForSlot" && core.ExprStr(stripConvs(info, rc.Args[0])) == arg && derivedFromField(f, stripConvs(info, c.Args[1]), "Parent_slot") {
 							okParent = true
+							if as, isA := n.Ast.(*ast.AssignStmt); isA && len(as.Lhs) >= 1 {
+								parentBlocks[core.ObjOf(info, as.Lhs[0])] = true
+							}
 						}
 					}
 				}
@@ -731,7 +735,11 @@ func c02Blockhash(r *core.Report) {
 				return true
 			}
 			x, i := core.ExprStr(ix.X), core.ExprStr(ix.Index)
-			if strings.Contains(strings.ToLower(x), "parent") && strings.HasSuffix(x, ".Entries") && (i == "len("+x+") - 1" || i == "len("+x+")-1") {
+			rootObj := types.Object(nil)
+			if rid := rootIdent(ix.X); rid != nil {
+				rootObj = info.Uses[rid]
+			}
+			if rootObj != nil && parentBlocks[rootObj] && strings.HasSuffix(x, ".Entries") && (i == "len("+x+") - 1" || i == "len("+x+")-1") {
 				okLastOfParent = true
 			}
 			return true
@@ -859,7 +867,7 @@ func c02TransactionAnswer(r *core.Report) {
 			if !ok || len(as.Lhs) != 1 || len(as.Rhs) != 1 {
 				return true
 			}
-			if sel, ok := core.Unparen(as.Lhs[0]).(*ast.SelectorExpr); ok && sel.Sel.Name == "Slot" && strings.Contains(strings.ToLower(core.ExprStr(sel.X)), "resp") {
+			if sel, ok := core.Unparen(as.Lhs[0]).(*ast.SelectorExpr); ok && sel.Sel.Name == "Slot" && strings.Contains(core.NamedTypeName(info.TypeOf(sel.X)), "Response") {
 				if isNodeSlot(as.Rhs[0]) {
 					okSlot = true
 				}
@@ -973,4 +981,28 @@ func c02PrefetchIsBestEffort(r *core.Report) {
 			r.OK(rule, f.Key+"#no-prefetch", posP(r, f.Pos()), "no read-ahead step in this assembler")
 		}
 	}
+}
+
+// derivedFromField: the expression, or the single definition of the local it names, selects the given field.
+func derivedFromField(f *core.Func, e ast.Expr, field string) bool {
+	info := f.Pkg.TypesInfo
+	has := func(x ast.Node) bool {
+		found := false
+		ast.Inspect(x, func(m ast.Node) bool {
+			if sel, ok := m.(*ast.SelectorExpr); ok && sel.Sel.Name == field {
+				found = true
+			}
+			return true
+		})
+		return found
+	}
+	if has(e) {
+		return true
+	}
+	if o := core.ObjOf(info, e); o != nil {
+		if d := singleDef(f, o); d != nil && has(d) {
+			return true
+		}
+	}
+	return false
 }
